@@ -22,6 +22,10 @@ structure Transc (α : Type) where
   cos  : α → α
   asin : α → α
   acosh : α → α
+  /-- `int(x)`: truncation toward zero. -/
+  trunc : α → Int
+  /-- integer to scalar. -/
+  ofInt : Int → α
 
 instance : NatCast Float := ⟨Float.ofNat⟩
 
@@ -35,6 +39,8 @@ def floatT : Transc Float where
   cos := Float.cos
   asin := Float.asin
   acosh := Float.acosh
+  trunc := fun x => x.toInt64.toInt
+  ofInt := Float.ofInt
 
 /-- An extended value: finite, `+∞`, or IEEE NaN (the result of `∞ - ∞`).
     umap uses `inf` as the distance to a disconnected neighbour. -/
